@@ -5,15 +5,54 @@ C04 — every epoch range can be audited against the published root hashes.
 is the canonical trie over the leaves inserted up to `i` (the tree is append-only).  The audit proof
 generated for (s, e) from the LATEST tree — however many epochs follow e — verifies against the
 root hashes of epochs s..e.
+
+Hypothesis `hlast` (added; the statement is false without it, see `audit_counterexample` below):
+the tree is empty or some leaf was inserted at an epoch `≥ en`.  In the directory every epoch
+`1..latestEpoch` has at least one leaf (`Dir.publish` does not advance the epoch for an empty batch),
+which implies `hlast` (`audit_complete_dense`).  `NodeStore.batchInsert` itself does advance
+`latestEpoch` on an empty batch; after such an epoch the root's `lastEpoch` stays behind, and
+`appendOnlyHelper` returns an EMPTY proof for the whole (non-empty) tree — the code path
+`if node.nodeType = .root then ([], [])`.
 -/
-import AkdModel.Thm.C02
 import AkdModel.Thm.C09
 import AkdModel.Lemmas.AuditGenLemmas
+import AkdModel.Lemmas.AuditGenCex
 namespace Akd.C04
 open Akd C01
 
 /-- the trie as it was published at epoch `i` -/
 def treeAt (t : CRoot) (i : Nat) : CRoot := CRoot.ofLeaves (t.leaves.filter (fun lf => lf.ep ≤ i))
+
+/-- the generated proof: for each epoch `ep` in `st..en-1`, `unchanged` = the maximal sub-tries all of
+whose leaves have epoch `≤ ep` (as elements `(label, digest)`), `inserted` = the leaves of epoch
+`ep + 1` with their un-epoched values -/
+def auditProof (c : Cfg) (t : CRoot) (st en : Nat) : NodeStore.AppendOnlyProof :=
+  ⟨AGen.proofsFrom c t st (en - st), AGen.epochsFrom st (en - st)⟩
+
+/-- **the output of proof generation** (characterisation of `appendOnlyHelper` / `appendOnlyProof`) -/
+theorem appendOnlyProof_eq (c : Cfg)
+    (s : NodeStore) (a : Azks) (t : CRoot)
+    (hrep : ReprRoot c .directory s t) (hwf : t.WF)
+    (hl : ∀ lf ∈ t.leaves, 1 ≤ lf.lbl.length ∧ lf.lbl.length ≤ 256)
+    (hep : ∀ lf ∈ t.leaves, 1 ≤ lf.ep ∧ lf.ep ≤ a.latestEpoch)
+    (st en : Nat) (hse : st < en) (hen : en ≤ a.latestEpoch)
+    (hlast : t.leaves = [] ∨ ∃ lf ∈ t.leaves, en ≤ lf.ep) :
+    s.appendOnlyProof c a st en = .ok (auditProof c t st en) := by
+  have hrep' := (reprRoot_iff c .directory s t).1 hrep
+  have hmax : ∀ lf ∈ t.leaves, lf.ep ≤ a.latestEpoch := fun lf h => (hep lf h).2
+  obtain ⟨r, _, hroot⟩ := AGen.getNode_root c s a.latestEpoch t hmax hrep'
+  unfold NodeStore.appendOnlyProof
+  rw [if_neg (by simp only [Bool.or_eq_true, decide_eq_true_eq]; omega), hroot]
+  simp only
+  rw [AGen.go_spec c s a r.latest t (en - st) st ⟨[], []⟩]
+  · rfl
+  · intro e h1 h2
+    refine AGen.helper_root c s a.latestEpoch e (e + 1) (Nat.le_succ _) t hwf (fun lf h => (hl lf h).2) hmax hrep'
+      ?_ r.latest hroot
+    rcases hlast with h | ⟨lf, hlf, hge⟩
+    · exact .inl h
+    · have := AGen.le_oMax t lf hlf
+      exact .inr (by omega)
 
 /-- **audit completeness** -/
 theorem audit_complete (c : Cfg) (hc : c.Lawful) (hce : c.emptyLabel.len = 0)
@@ -21,14 +60,53 @@ theorem audit_complete (c : Cfg) (hc : c.Lawful) (hce : c.emptyLabel.len = 0)
     (hrep : ReprRoot c .directory s t) (hwf : t.WF)
     (hl : ∀ lf ∈ t.leaves, 1 ≤ lf.lbl.length ∧ lf.lbl.length ≤ 256)
     (hep : ∀ lf ∈ t.leaves, 1 ≤ lf.ep ∧ lf.ep ≤ a.latestEpoch)
+    (st en : Nat) (hse : st < en) (hen : en ≤ a.latestEpoch)
+    (hlast : t.leaves = [] ∨ ∃ lf ∈ t.leaves, en ≤ lf.ep) :
+    ∃ π, s.appendOnlyProof c a st en = .ok π ∧
+      Auditor.verify c ((List.range (en - st + 1)).map fun i => (treeAt t (st + i)).rootHash c) π = .ok () := by
+  have _ := hc
+  refine ⟨auditProof c t st en, appendOnlyProof_eq c s a t hrep hwf hl hep st en hse hen hlast, ?_⟩
+  have hh : ((List.range (en - st + 1)).map fun i => (treeAt t (st + i)).rootHash c)
+      = AGen.hashAt c t st :: AGen.restHashes c t (st + 1) (en - st) := AGen.range_hashes c t (en - st) st
+  unfold Auditor.verify
+  rw [hh]
+  simp only [auditProof, List.length_cons, AGen.epochsFrom_length, AGen.proofsFrom_length]
+  rw [if_neg (by
+    have : ∀ k, (AGen.restHashes c t (st + 1) k).length = k := by
+      intro k
+      generalize st + 1 = ep
+      induction k generalizing ep with
+      | zero => rfl
+      | succ k ih => simp [AGen.restHashes, ih]
+    rw [this]; simp), if_neg (by simp)]
+  exact AGen.vgo_spec c hce t hwf hl (en - st) st
+
+/-- corollary: in a tree in which every epoch `1..latestEpoch` has a leaf (every directory state) -/
+theorem audit_complete_dense (c : Cfg) (hc : c.Lawful) (hce : c.emptyLabel.len = 0)
+    (s : NodeStore) (a : Azks) (t : CRoot)
+    (hrep : ReprRoot c .directory s t) (hwf : t.WF)
+    (hl : ∀ lf ∈ t.leaves, 1 ≤ lf.lbl.length ∧ lf.lbl.length ≤ 256)
+    (hep : ∀ lf ∈ t.leaves, 1 ≤ lf.ep ∧ lf.ep ≤ a.latestEpoch)
+    (hdense : ∀ ep, 1 ≤ ep → ep ≤ a.latestEpoch → ∃ lf ∈ t.leaves, lf.ep = ep)
     (st en : Nat) (hse : st < en) (hen : en ≤ a.latestEpoch) :
     ∃ π, s.appendOnlyProof c a st en = .ok π ∧
       Auditor.verify c ((List.range (en - st + 1)).map fun i => (treeAt t (st + i)).rootHash c) π = .ok () := by
-  sorry
+  obtain ⟨lf, hlf, he⟩ := hdense en (by omega) hen
+  exact audit_complete c hc hce s a t hrep hwf hl hep st en hse hen (.inr ⟨lf, hlf, by omega⟩)
+
+/-- without `hlast` the statement is false: one batch at epoch 1, then two empty batches through
+`NodeStore.batchInsert` (latest epoch 3); the proof generated for (1, 2) is empty and the auditor
+rejects it against the root hashes of epochs 1 and 2 (`Lemmas/AuditGenCex.lean`) -/
+theorem audit_counterexample : AGen.cexCheck Cfg.whatsappV1 = true := AGen.audit_counterexample
 
 /-- invalid ranges are refused -/
 theorem audit_refused (c : Cfg) (d : Dir) (st en : Nat) (a : Azks) (ha : d.azks = some a)
     (h : st ≥ en ∨ en > a.latestEpoch) : ∃ e, d.audit c st en = .error e := by
-  sorry
+  unfold Dir.audit
+  simp only [ha]
+  by_cases h1 : st ≥ en
+  · exact ⟨.invalidEpoch, by simp [h1, bind, Except.bind, throw, throwThe, MonadExceptOf.throw]⟩
+  · have h2 : a.latestEpoch < en := by omega
+    exact ⟨.invalidEpoch, by simp [h1, h2, bind, Except.bind, throw, throwThe, MonadExceptOf.throw]⟩
 
 end Akd.C04
